@@ -229,41 +229,37 @@ def run(ctx, rep):
         rep.finding(R4, 'C16.R4/BranchDictCache.after_branch_add', m.relfile(HELPERS), 'BranchDictCache.after_branch_add', 'values of a forked branch\'s cache entry are shared with the parent')
 
     R5 = rep.rule('C16.R5', 'tree builder: counts accumulate over children, leaves are exactly single-branch structures')
-    bb = m.func(TAB, 'Tableau.Tree._build_branches')
-    augs = {astq.u(n.target): astq.u(n) for n in ast.walk(bb) if isinstance(n, ast.AugAssign)}
-    for n in ast.walk(bb):          # `x = x + ...` accumulates just as well
-        if isinstance(n, ast.Assign) and len(n.targets) == 1 and isinstance(n.value, ast.BinOp) and isinstance(n.value.op, ast.Add) \
-                and astq.u(n.targets[0]) in [astq.u(x) for x in ast.walk(n.value) if isinstance(x, ast.Attribute)]:
-            augs[astq.u(n.targets[0])] = astq.u(n).replace(' = ', ' += ', 1)
-    for tgt in ('tree.descendant_node_count', 'tree.width'):
-        ok = tgt in augs and '+=' in augs[tgt]
-        rep.instance(R5, ok=ok, nontrivial=tgt)
+    from .. import treefold
+    res, cons = treefold.fold_tree(m)
+    rep.consult(*cons)
+    for ok, case, detail in res:
+        rep.instance(R5, ok=ok, nontrivial=('tree', case))
         if not ok:
-            rep.finding(R5, f'C16.R5/_build_branches/{tgt}', m.loc(TAB, bb), 'Tableau.Tree._build_branches', f'{tgt} is not accumulated over the child structures')
-    ok = 'tree.children.append(child)' in astq.u(bb) and 'next_branches = deque((b for b in branches if b[depth] == node))' in astq.u(bb)
-    rep.instance(R5, ok=ok, nontrivial='children')
-    if not ok:
-        rep.finding(R5, 'C16.R5/_build_branches/children', m.loc(TAB, bb), 'Tableau.Tree._build_branches', 'children are not built one per distinct node at the fork depth, from the branches through that node')
-    bd = m.func(TAB, 'Tableau.Tree._build')
-    txt = astq.u(bd)
-    ok = 'if len(branches) == 1' in txt and 'cls._build_leaf(tab, tree, branches[0], memo)' in txt and \
-        'tree.structure_node_count = tree.descendant_node_count + len(tree.nodes)' in txt and "memo['distinct_nodes'] += len(tree.nodes)" in txt
-    rep.instance(R5, ok=ok, nontrivial='_build')
-    rep.consult(m.loc(TAB, bd) + ' Tableau.Tree._build', m.loc(TAB, bb) + ' Tableau.Tree._build_branches')
-    if not ok:
-        rep.finding(R5, 'C16.R5/_build', m.loc(TAB, bd), 'Tableau.Tree._build', 'leaf/structure/distinct node accounting no longer reads as reviewed')
-    lf = m.func(TAB, 'Tableau.Tree._build_leaf')
-    txt = astq.u(lf)
-    ok = 'tree.width = 1' in txt and 'tree.leaf = True' in txt and 'tree.closed = tab.flag.CLOSED in tab.stat(branch, StatKey.FLAGS)' in txt and 'tree.open = not tree.closed' in txt
-    rep.instance(R5, ok=ok, nontrivial='_build_leaf')
-    if not ok:
-        rep.finding(R5, 'C16.R5/_build_leaf', m.loc(TAB, lf), 'Tableau.Tree._build_leaf', 'a leaf is not width 1 with closed/open taken from the branch flags')
+            rep.finding(R5, f'C16.R5/tree/{case}', cons[0].split(' ')[0], 'Tableau.Tree.make', f'{case}: {detail}')
+    rep.floor('C16.R5', 'tree scenarios', len(res), 6)
+    # statistics folded: the counts equal the observable ones
     st = m.func(TAB, 'Tableau._compute_stats')
-    txt = astq.u(st)
-    ok = all(x in txt for x in ('branches=len(self)', 'open_branches=len(self.open)', 'closed_branches=len(self) - len(self.open)', 'steps=len(self.history)'))
+    rep.consult(m.loc(TAB, st) + ' Tableau._compute_stats')
+    from ..minieval import Interp, Obj, Raises
+
+    class TabM(list):
+        pass
+    tabm = TabM(['b0', 'b1', 'b2'])
+    tabm.open = ['b0']
+    tabm.history = [Obj('step', duration=Obj('ctr', value=2)), Obj('step', duration=Obj('ctr', value=3))]
+    tabm.tree = Obj('tree', distinct_nodes=17)
+    sw = lambda v: Obj('sw', elapsed_ms=lambda: v)
+    tabm.timers = Obj('timers', build=sw(1), trunk=sw(2), tree=sw(3), models=sw(4))
+    tabm.rules = [Obj('rule', timers={'search': sw(10), 'apply': sw(20)})]
+    tabm._result_word = lambda: 'WORD'
+    it = Interp(dict(sum=sum, AttributeError=AttributeError), where='Tableau._compute_stats')
+    r = it.safe(st, [tabm])
+    want = dict(branches=3, open_branches=1, closed_branches=2, steps=2, distinct_nodes=17, result='WORD', rules_duration_ms=5)
+    ok = isinstance(r, dict) and all(r.get(k) == v for k, v in want.items())
     rep.instance(R5, ok=ok, nontrivial='_compute_stats')
     if not ok:
-        rep.finding(R5, 'C16.R5/_compute_stats', m.loc(TAB, st), 'Tableau._compute_stats', 'statistics no longer equal the observable counts (branches, open, closed, steps)')
+        rep.finding(R5, 'C16.R5/_compute_stats', m.loc(TAB, st), 'Tableau._compute_stats',
+                    f'statistics differ from the observable counts: got {r if not isinstance(r, dict) else {k: r.get(k) for k in want}}, expected {want}')
 
 
 def fold_listeners(ctx, rep, R2, ab, ac, ana, atk, ara):
